@@ -1523,6 +1523,53 @@ where
         let AttributeOp { selector, action } = op;
         let dict = self.dict.clone();
 
+        if action.is_constructive() {
+            // check that the whole path can be followed or created
+            // before creating anything,
+            // so that a failure leaves the object unchanged
+            let mut cur: Option<&InMemDicomObject<D>> = Some(&*self);
+            for (i, step) in selector.iter().enumerate() {
+                if let AttributeSelectorStep::Nested { tag, item } = step {
+                    match cur.and_then(|o| o.entries.get(tag)) {
+                        Some(e) => {
+                            let items = e.items().ok_or_else(|| ApplyError::NotASequence {
+                                selector: selector.clone(),
+                                step_index: i as u32,
+                            })?;
+                            if (*item as usize) > items.len() {
+                                return Err(ApplyError::MissingSequence {
+                                    selector: selector.clone(),
+                                    step_index: i as u32,
+                                });
+                            }
+                            // `None` when the item is yet to be created
+                            cur = items.get(*item as usize);
+                        }
+                        None => {
+                            // the sequence would be created with a single new item
+                            let vr = dict
+                                .by_tag(*tag)
+                                .and_then(|entry| entry.vr().exact())
+                                .unwrap_or(VR::UN);
+                            if vr != VR::SQ && vr != VR::UN {
+                                return Err(ApplyError::NotASequence {
+                                    selector: selector.clone(),
+                                    step_index: i as u32,
+                                });
+                            }
+                            if *item != 0 {
+                                return Err(ApplyError::MissingSequence {
+                                    selector: selector.clone(),
+                                    step_index: i as u32,
+                                });
+                            }
+                            cur = None;
+                        }
+                    }
+                }
+            }
+        }
+
         let mut obj = self;
         for (i, step) in selector.iter().enumerate() {
             match step {
